@@ -128,6 +128,13 @@ func (c Cfg) Extenders() []goldmark.Extender {
 	if c.Ext == "footnote+footnote" {
 		return []goldmark.Extender{c.footnoteExt(), c.footnoteExt()}
 	}
+	// "pair:<a>:<b>": the extensions of configuration a, then those of configuration b
+	if strings.HasPrefix(c.Ext, "pair:") {
+		ab := strings.SplitN(strings.TrimPrefix(c.Ext, "pair:"), ":", 2)
+		a, b := c, c
+		a.Ext, b.Ext = ab[0], ab[1]
+		return append(a.Extenders(), b.Extenders()...)
+	}
 	// "gfm+<ext>": GFM plus one further extension (possibly one of its own members a second time)
 	if strings.HasPrefix(c.Ext, "gfm+") {
 		one := c
